@@ -264,7 +264,7 @@ C10Raw(sn, calls, res) ==
        /\ (IsRevPatch(c) /\ Det(c) = "adopt") =>
             /\ \A x \in RevNamed(sn, Name(c)) : x.owner = "none" /\ (x.sel \/ x.marker)
             /\ \E j \in 1..(k - 1) : IsFreshGet(calls[j]) /\ OK(calls[j])
-            /\ sn.fresh.exists /\ sn.fresh.sameUid
+            /\ sn.fresh.exists /\ sn.fresh.sameUid /\ ~sn.fresh.deleting /\ ~sn.set.deleting
        \* pods that stopped matching are released, never deleted; release only of own pods
        /\ (IsPodPatch(c) /\ Det(c) = "release") => \A p \in NamedPod(sn, Name(c)) : p.owner = "self" /\ ~(p.match /\ p.member)
        /\ IsPodDelete(c) => \A p \in NamedPod(sn, Name(c)) : IsPartOf(sn, p)
